@@ -53,7 +53,7 @@ def execute(c):
     from odc.geo.types import xy_
 
     ev = {"c": dict(c, same_crs=False, same_units=False), "outcome": "ok", "pos": [],
-          "o": {"h": 0, "w": 0, "axis_aligned": True, "crs_ok": True, "is_source": False, "edge": [0, 0], "res_ratio": [0, 0], "square": True, "explicit_res_ok": True},
+          "o": {"h": 0, "w": 0, "axis_aligned": True, "crs_ok": True, "is_source": False, "edge": [0, 0], "res_ratio": [0, 0], "square": True, "explicit_res_ok": True, "tight_floats": True},
           "utm": {"is_utm": True, "overlaps": True, "north": True}}
     if c["source"] == "point":
         return execute_utm_point(c, ev)
@@ -96,6 +96,11 @@ def execute(c):
             xx = xr_zeros(src, dtype="uint8")
             out = xx.odc.output_geobox(crs_arg, **kw)
             src_seen = xx.odc.geobox      # the source as the accessor sees it (labels are floating point)
+        if o["tight"] and "anchor" in kw:
+            # tight mode pins the grid to the bounding box of the projected footprint: the grid floats, whichever anchor was named besides
+            # (compared with another NAMED anchor: the default anchor may take the return-the-source shortcut, which looks at neither)
+            ref = compute_output_geobox(src_seen, crs_arg, **dict(kw, anchor="edge" if o["anchor"] != "edge" else "center"))
+            ev["o"]["tight_floats"] = bool(ref == (out if how != 2 else compute_output_geobox(src_seen, crs_arg, **kw)))
         dst_crs = out.crs
         same_crs = bool(dst_crs == src.crs)
         ev["c"]["same_crs"] = same_crs
